@@ -201,11 +201,9 @@ fn run_sequence_inner(codes: &[usize], invalid: bool) -> Outcome {
                 }
                 let state = slots[x].state;
                 let Some(s) = slots[x].subs.last_mut() else { return Outcome::Pruned };
-                if state == MState::Created {
-                    // effect on an observer that has not been through a stabilise: not specified
-                    return Outcome::Pruned;
-                }
-                if state == MState::Disallowed {
+                // (also on an observer that has not been through a stabilise yet: C09's "no callback
+                // runs after unsubscribe"; defect #23)
+                if state == MState::Disallowed || state == MState::Created {
                     nontrivial = true;
                 }
                 st.unsubscribe(s.token);
